@@ -139,3 +139,17 @@ _P["C11"] = {
                    "(invariant by induction over the trace); correspondence: 1..32 producers on the real MessageStream, every Write is one encoding, the wire re-framed is a merge of the sequences.",
     "trusted_base": _STREAM_TRUSTED, "assumptions": ["partial: real schedules are sampled"],
 }
+
+_DEC_TRUSTED = ["Model/Parse.v decoders hand-written from the Go sources (exact-capacity buffers: a reslice beyond the length panics; with spare capacity Go would read stale bytes instead)",
+                "Model/Wire.v layouts for re-encoding"]
+_P["C07"] = {
+    "explanation": "Theorems C07_* (Properties/C07.v) over Model/Parse.v; correspondence: the entry point on truncations at every offset, corrupted length/type fields and all 256 type bytes, "
+                   "each parse in a watchdog subprocess (3 s, 1 GiB).",
+    "trusted_base": _DEC_TRUSTED, "assumptions": ["time/memory proportionality is measured by the per-case limits, not proved"],
+    "harness_timeout": {"quick": 900, "thorough": 3400},
+}
+_P["C05"] = {
+    "explanation": "Theorems C05_* (Properties/C05.v) over Model/Parse.v + Model/Wire.v; correspondence: every kind Parse dispatches on, encode -> Parse -> encode with a canonical field dump before/after.",
+    "trusted_base": _DEC_TRUSTED, "assumptions": [],
+    "harness_timeout": {"quick": 900, "thorough": 3400},
+}
